@@ -109,6 +109,16 @@ class Projection:
         P = dim(rr, 'pin_pitch')
         self.P = P
         tol = 1e-7 * P
+        # the corner cell lies on the diagonal half way between the surface
+        # of the corner pin and the corner of the innermost duct (dimensions
+        # as given to the constructor)
+        self.r_corner = None
+        try:
+            F = float(truth_ftf(rr)[0][0])
+            D = float(dim(rr, 'pin_diameter'))
+            self.r_corner = 0.5 * (n * P + D / 2 + F / S3)
+        except (KeyError, AttributeError, IndexError, TypeError):
+            pass
         # ---- pins
         pxy = np.asarray(rr.pin_lattice.xy, dtype=float)
         self.pin_key = []
@@ -203,6 +213,8 @@ class Projection:
                 a == (n * dd[0], n * dd[1]) for dd in DIRS)
             ok = (corner and abs(cross) <= tol * np.linalg.norm(r)
                   and np.dot(out, r) > 0)
+            if ok and self.r_corner is not None and n >= 1:
+                ok = abs(np.linalg.norm(c) - self.r_corner) <= 1e3 * tol
             return [3, 0, a[0], a[1]], int(ok)
         return [0, 0, 0, 0], 0
 
